@@ -1,15 +1,15 @@
 SPECIFICATION Spec
 CONSTANTS
   EncoderBuffer = "fresh"
-  EncodeVar = "own"
-  Encoders = {"application/json", "application/problem+json"}
-  NoEncoder = "forward"
+  EncodeVar = "captured"
+  Encoders = {"application/json"}
+  NoEncoder = "reject"
   CloseBinding = "at_defer"
-  Small = TRUE
+  Small = FALSE
   MTs = {"application/json", "application/problem+json"}
   MaxV1 = 2
   MaxV2 = 1
-  MaxR1 = 1
+  MaxR1 = 2
   MaxR2 = 1
 INVARIANTS RequestsAtRestOK
 CHECK_DEADLOCK FALSE
